@@ -13,7 +13,8 @@ CHECK = dict(
     floor={"plain-tbb:loops_where_concurrency_ge_2_observed": 10,
            "plain-omp:loops_where_concurrency_ge_2_observed": 10,
            "plain-internal:loops_where_concurrency_ge_2_observed": 10,
-           "plain-debug:inits": 10, "plain-debug-fopenmp:inits": 10,
+           "plain-debug:inits": 10, "plain-internal:processes_that_used_tasking_before_init": 10,
+           "plain-tbb:processes_that_used_tasking_before_init": 10, "plain-debug-fopenmp:inits": 10,
            "plain-internal-fopenmp:loops_where_concurrency_ge_2_observed": 10},
     assumptions=[
         "build configurations: the four backends, plus the internal and serial backends with the application compiled with -fopenmp",
